@@ -470,7 +470,17 @@ func c23CancelRun(hist []string) c23CancelRes {
 			return calls, v
 		}
 		kv.Close()
-		kv2, err := sqlite3.New(sqlite3.Config{Logger: nop, HashFn: chord.Hash, DataDir: dir})
+		// database/sql rolls a cancelled transaction back on a goroutine of its own and only then
+		// releases the connection; Close does not wait for it, so the file lock of this (still
+		// living) process can outlast Close for a moment. A killed process holds no locks: wait.
+		var kv2 *sqlite3.SqliteKV
+		for try := 0; try < 400; try++ {
+			kv2, err = sqlite3.New(sqlite3.Config{Logger: nop, HashFn: chord.Hash, DataDir: dir})
+			if err == nil || !strings.Contains(err.Error(), "locked") {
+				break
+			}
+			time.Sleep(50 * time.Millisecond)
+		}
 		if err != nil {
 			return calls, &[2]string{"cancel:reopen-fails", where + ": reopening fails: " + err.Error()}
 		}
